@@ -46,7 +46,8 @@ with cf.ThreadPoolExecutor(jobs) as ex:
     for n, prop, rc, first, replay in ex.map(one, names):
         print(f"{n} [{prop}] -> exit {rc} | {replay} | {first[:150]}", flush=True)
         res.append({"seed": n, "property": prop, "exit": rc, "first_failed_obligation": first, "replay": replay})
-json.dump(res, open(f"{root}/RESULTS.json", "w"), indent=1)
+if not prefix:  # only a full run rewrites the committed table
+    json.dump(res, open(f"{root}/RESULTS.json", "w"), indent=1)
 caught = sum(1 for r in res if r["exit"] == 1)
 print(f"{caught}/{len(res)} seeds reported as VIOLATION; exit 2 (undecided): {sum(1 for r in res if r['exit'] == 2)}; "
       f"exit 0 (missed): {sum(1 for r in res if r['exit'] == 0)}; concrete replays: {sum(1 for r in res if r['replay'] == 'concrete')}")
